@@ -55,10 +55,14 @@ def _PIN_IN(e, st, c, text):
                                           z3.Contains(z3.SubString(text.v, lo, hi - lo), d["pin"].v))))
 
 
+_YEAR_OF = lambda c: (f"({c}.year is None or (1600 <= {c}.year and {c}.year <= G._highest_valid_year and {c}.metadata.year is not None "
+                      f"and len({c}.metadata.year) >= 4 and {c}.year == str_to_int({c}.metadata.year[0:4])))")
 TOK_AT = "index is not None and 0 <= index and index < len(words) and isinstance(words[index], {cls})"
 EDITIONS_WF = ("typed(words[index], 'obj<CitationToken>').groups is not None and typed(words[index], 'obj<CitationToken>').exact_editions is not None and typed(words[index], 'obj<CitationToken>').variation_editions is not None "
                "and forall(lambda i: implies(0 <= i and i < len(typed(words[index], 'obj<CitationToken>').exact_editions), typed(words[index], 'obj<CitationToken>').exact_editions[i] is not None and typed(words[index], 'obj<CitationToken>').exact_editions[i].reporter is not None)) "
                "and forall(lambda i: implies(0 <= i and i < len(typed(words[index], 'obj<CitationToken>').variation_editions), typed(words[index], 'obj<CitationToken>').variation_editions[i] is not None and typed(words[index], 'obj<CitationToken>').variation_editions[i].reporter is not None))")
+
+shared["find"] = {"TOK_AT": TOK_AT, "EDITIONS_WF": EDITIONS_WF, "WORDS_T": WORDS_T}
 
 # ------------------------------------------------------------------------------------------------ add_metadata chain
 SELF_AT = ("cit_wf(self) and 0 <= self.index and self.index < len(words) and words[self.index] is self.token "
@@ -110,14 +114,18 @@ for _cls in ("FullLawCitation", "FullJournalCitation"):
 # ------------------------------------------------------------------------------------------------ extraction functions
 contract("find._extract_id_citation",
     types={"words": WORDS_T, "index": "int"}, returns="obj<IdCitation>", noraise=True, prop="C02", ghost=GHOST_DOC,
-    requires={"part": "PART(words, ghost.text, ghost.offs)", "tok": TOK_AT.format(cls="IdToken"), "lemmas": "regex_lemmas()"},
+    requires={"part": "PART(words, ghost.text, ghost.offs)", "tok": TOK_AT.format(cls="IdToken"), "lemmas": "regex_lemmas()",
+              "groups": "typed(words[index], 'obj<Token>').groups is not None"},       # Token.from_match stores m.groupdict()
     ensures={"made": "result is not None and result.token is words[index] and result.index == index",
+             "wf": "cit_wf(result) and alive(result)",
              "spans": "SPANS(result, ghost.text)", "pin_in": "PIN_IN(result, ghost.text)"})
 
 contract("find._extract_supra_citation",
     types={"words": WORDS_T, "index": "int"}, returns="obj<SupraCitation>", noraise=True, prop="C02", ghost=GHOST_DOC,
-    requires={"part": "PART(words, ghost.text, ghost.offs)", "tok": TOK_AT.format(cls="SupraToken"), "lemmas": "regex_lemmas()"},
+    requires={"part": "PART(words, ghost.text, ghost.offs)", "tok": TOK_AT.format(cls="SupraToken"), "lemmas": "regex_lemmas()",
+              "groups": "typed(words[index], 'obj<Token>').groups is not None"},       # Token.from_match stores m.groupdict()
     ensures={"made": "result is not None and result.token is words[index] and result.index == index",
+             "wf": "cit_wf(result) and alive(result)",
              "spans": "SPANS(result, ghost.text)", "pin_in": "PIN_IN(result, ghost.text)"})
 
 contract("find._extract_shortform_citation",
@@ -129,6 +137,7 @@ contract("find._extract_shortform_citation",
                             "and typed(words[index], 'obj<CitationToken>').groups['page'] is not None",
               "page_is_suffix": "suffix_of(typed(words[index], 'obj<CitationToken>').groups['page'], str(words[index]))"},
     ensures={"made": "result is not None and result.token is words[index] and result.index == index",
+             "wf": "cit_wf(result) and alive(result)",
              "spans": "SPANS(result, ghost.text)", "pin_in": "PIN_IN(result, ghost.text)"})
 
 contract("find._extract_full_citation",
@@ -142,7 +151,10 @@ contract("find._extract_full_citation",
               "stopword_groups": "forall(lambda i: implies(0 <= i and i < len(words) and isinstance(words[i], StopWordToken), "
                                  "typed(words[i], 'obj<StopWordToken>').groups is not None and 'stop_word' in typed(words[i], 'obj<StopWordToken>').groups))"},
     ensures={"made": "result is not None and result.token is words[index] and result.index == index",
-             "spans": "SPANS(result, ghost.text)"})
+             "wf": "cit_wf(result) and alive(result)",
+             "spans": "SPANS(result, ghost.text)",
+             "year_sound": _YEAR_OF("typed(result, 'obj<ResourceCitation>')").replace("typed(result, 'obj<ResourceCitation>').metadata", "result.metadata")},
+    props={"year_sound": "C18"})
 
 for _fn in ("find._extract_id_citation", "find._extract_supra_citation", "find._extract_shortform_citation"):
     ghost_code(_fn, "at:return",
@@ -153,8 +165,6 @@ R.contracts["find._extract_supra_citation"].ghost_init["pfx"] = "ghost.pfx == ''
 R.contracts["find._extract_shortform_citation"].ghost_init["pfx"] = "ghost.pfx == typed(words[index], 'obj<CitationToken>').groups['page']"
 
 # ------------------------------------------------------------------------------------------------ parallel citations (C17)
-_YEAR_OF = lambda c: (f"({c}.year is None or (1600 <= {c}.year and {c}.year <= G._highest_valid_year and {c}.metadata.year is not None "
-                      f"and len({c}.metadata.year) >= 4 and {c}.year == str_to_int({c}.metadata.year[0:4])))")
 contract("models.FullCaseCitation.is_parallel_citation",
     types={"self": "obj<FullCaseCitation>", "preceding": "obj<CaseCitation>"}, returns="none", noraise=True, prop="C17",
     requires={"objs": "cit_wf(self) and cit_wf(preceding) and isinstance(preceding, FullCaseCitation)",     # the only call site passes a FullCaseCitation
